@@ -16,6 +16,7 @@ Which(img) ==
        ELSE IF ~Counted(t) THEN <<t.name, "stored entry count", t.stored_len, t.counted>>
        ELSE IF \E p \in SeqSet(t.pages) : ~p.ck THEN <<t.name, "checksum">>
        ELSE IF \E p \in SeqSet(t.pages) : ~Increasing(p.keys) THEN <<t.name, "keys not increasing">>
+       ELSE IF \E p \in SeqSet(t.pages) : ~InlineOk(p) THEN <<t.name, "inline multimap values not increasing">>
        ELSE <<t.name, "routing key does not bound its subtrees">>
 
 RecOk(R) ==
